@@ -11,6 +11,34 @@ thread_local! {
     pub static KEY_CLONES: Cell<u64> = const { Cell::new(0) };
     pub static VAL_CLONES: Cell<u64> = const { Cell::new(0) };
     pub static HEAP_MODE: Cell<bool> = const { Cell::new(false) };
+    /// fault injection: the n-th `Key::clone` / `Key::cmp` from now on panics (0 = disarmed)
+    pub static CLONE_FUSE: Cell<u64> = const { Cell::new(0) };
+    pub static CMP_FUSE: Cell<u64> = const { Cell::new(0) };
+}
+
+pub fn arm_clone_fuse(n: u64) {
+    CLONE_FUSE.with(|c| c.set(n));
+}
+pub fn arm_cmp_fuse(n: u64) {
+    CMP_FUSE.with(|c| c.set(n));
+}
+pub fn disarm_fuses() {
+    CLONE_FUSE.with(|c| c.set(0));
+    CMP_FUSE.with(|c| c.set(0));
+}
+fn burn(fuse: &'static std::thread::LocalKey<Cell<u64>>, what: &str) {
+    let fire = fuse.with(|c| {
+        let n = c.get();
+        if n == 0 {
+            false
+        } else {
+            c.set(n - 1);
+            n == 1
+        }
+    });
+    if fire {
+        panic!("VERIF-FAULT: injected panic in Key::{}", what);
+    }
 }
 
 pub fn live_keys() -> i64 {
@@ -42,6 +70,7 @@ impl Key {
 }
 impl Clone for Key {
     fn clone(&self) -> Key {
+        burn(&CLONE_FUSE, "clone");
         KEY_CLONES.with(|c| c.set(c.get() + 1));
         Key::new(self.ord, self.serial)
     }
@@ -64,6 +93,7 @@ impl PartialOrd for Key {
 }
 impl Ord for Key {
     fn cmp(&self, o: &Key) -> Ordering {
+        burn(&CMP_FUSE, "cmp");
         self.ord.cmp(&o.ord)
     }
 }
